@@ -1437,6 +1437,23 @@ def replay(ctx, rep, obj):
         rep.case(key=("replay", req), nontrivial=True, sample=dict(resp=resp[1]))
         if is_panic(resp[1]):
             rep.violation(obj.get("signature", "replay"), "replayed failure reproduces", case)
+        elif req.startswith("blame.stream ") and case.get("keys") is not None:
+            # the colour rules again, on the replayed rows (keys = attribution of each line)
+            got = hook_stream_items(resp[1]) or []
+            keys, last, bad = case["keys"], {}, []
+            for n, (k, (handled, c, _row)) in enumerate(zip(keys, got)):
+                if n > 0 and handled:
+                    pk, pc = keys[n - 1], got[n - 1][1]
+                    if pk == k and c != pc:
+                        bad.append((n, "same-attribution-same-colour"))
+                    if pk != k and c == pc:
+                        bad.append((n, "neighbour-differs"))
+                    if pk != k and k in last and last[k] != pc and c != last[k]:
+                        bad.append((n, "colour-stable-unless-collision"))
+                last[k] = c
+            print("numbers", case.get("numbers"), "colours", [g[1] for g in got], "broken", bad)
+            if bad:
+                rep.violation(obj.get("signature", "replay"), "replayed failure reproduces", case)
         elif kind == "format" and case.get("want") is not None:
             got = canon_linenum(resp[1])
             if got != [tuple(w_) for w_ in case["want"]]:
